@@ -616,6 +616,61 @@ where
 }
 
 /// A convenience wrapper which creates a new handle with a preset keyspace.
+#[cfg(datacake_verif)]
+impl<S> ReplicatedStoreHandle<S>
+where
+    S: Storage,
+{
+    /// Verification hook: the keyspace group behind this handle.
+    pub fn verif_group(&self) -> &crate::verif::KeyspaceGroup<S> {
+        &self.group
+    }
+}
+
+#[cfg(datacake_verif)]
+/// Verification hooks: re-exports of the internal building blocks (keyspace actors and their
+/// messages, the RPC services and clients) so a harness can drive them directly.
+pub mod verif {
+    /// The small vector type the bulk messages carry.
+    pub type DocVec<T> = smallvec::SmallVec<[T; 4]>;
+
+    pub use crate::keyspace::{
+        CorruptedState,
+        Del,
+        Diff,
+        KeyspaceActor,
+        KeyspaceGroup,
+        KeyspaceInfo,
+        LastUpdated,
+        MultiDel,
+        MultiSet,
+        PurgeDeletes,
+        Serialize,
+        Set,
+        CONSISTENCY_SOURCE_ID,
+        NUM_SOURCES,
+        READ_REPAIR_SOURCE_ID,
+    };
+    pub use crate::rpc::services::consistency_impl::{
+        BatchPayload,
+        ConsistencyService,
+        Context,
+        MultiPutPayload,
+        MultiRemovePayload,
+        PutPayload,
+        RemovePayload,
+    };
+    pub use crate::rpc::services::replication_impl::{
+        FetchDocs,
+        FetchedDocs,
+        GetState,
+        KeyspaceOrSwotSet,
+        PollKeyspace,
+        ReplicationService,
+    };
+    pub use crate::rpc::{ConsistencyClient, ReplicationClient};
+}
+
 pub struct ReplicatedKeyspaceHandle<S>
 where
     S: Storage,
